@@ -343,6 +343,12 @@ func (ci *crdIpam) ConfigurePool(floatIPs []*FloatingIPPool) error {
 		glog.Infof("Configure pool done, %d fip pool, %d unallocated, %d allocated", len(ci.FloatingIPs),
 			len(ci.unallocatedFIPs), len(ci.allocatedFIPs))
 	}()
+	for i := range floatIPs {
+		// json null is accepted as an element of the floatingips list of the static config
+		if floatIPs[i] == nil {
+			return fmt.Errorf("floatingip config has a null pool at index %d", i)
+		}
+	}
 	sort.Sort(FloatingIPSlice(floatIPs))
 	ips, err := ci.listFloatingIPs()
 	if err != nil {
